@@ -132,7 +132,13 @@ def build_prog(bdir, name, csrc, objs, asan=True, hooks=True, wrap=False, extra=
 def build_driver(bdir):
     stage_sources(bdir)
     objs = build_lib(bdir, asan=True, hooks=True)
-    return build_prog(bdir, "of_driver", os.path.join(HARNESS, "of_driver.c"), objs, wrap=True)
+    try:
+        return build_prog(bdir, "of_driver", os.path.join(HARNESS, "of_driver.c"), objs, wrap=True)
+    except Infra as e:
+        # the layer-B projection reads fields of the LDPC control block; an implementation that no longer has them is
+        # not a problem of the properties: build the driver without the projection (API-level validation is unaffected)
+        log("note: driver built without the internal projection (%s)" % str(e).splitlines()[-1][:160])
+        return build_prog(bdir, "of_driver", os.path.join(HARNESS, "of_driver.c"), objs, wrap=True, extra=("-DOF_DRIVER_NO_INTERNALS",))
 
 
 ASAN_ENV = {"ASAN_OPTIONS": "detect_leaks=0:abort_on_error=0:halt_on_error=1:allocator_may_return_null=1:max_allocation_size_mb=3072:"
